@@ -32,8 +32,8 @@ var bracketMethods = map[string]bool{"IfStart": true, "IfEnd": true, "ElseIfStar
 
 func runC16(w *World) *Result {
 	r := NewResult("C16")
-	r.Explanation = "Decides well-formedness at template + protocol level for all programs (holes assumed free of quote/paren characters – the assumption C08's escape rule reports as violated): every Bash line template is lexically closed; every Batch line has balanced quotes; with each converter method's block-keyword / parenthesis effect read from its templates, every unit of the bracket protocol (if-chains, loops, functions) is balanced with matching closers and all other methods are neutral; Batch label references have definitions of the same family and definitions are unique per construct (never numbered by stack depth); helper routines are emitted when an invocation can be emitted and (Batch) only then; the no-op emits a command."
-	r.NotDecided = "bash -n itself is not run; data-dependent breakage of lines is C08; that the driver follows the bracket protocol is decided under C04 (R-C04-proto)."
+	r.Explanation = "Decides well-formedness at template + protocol level for all programs; what string data can do to the lexical structure is decided per hole (R-C16-data: the verdicts of C08's quoting rules that matter to the syntax check): every Bash line template is lexically closed; every Batch line has balanced quotes; with each converter method's block-keyword / parenthesis effect read from its templates, every unit of the bracket protocol (if-chains, loops, functions) is balanced with matching closers and all other methods are neutral; Batch label references have definitions of the same family and definitions are unique per construct (never numbered by stack depth); helper routines are emitted when an invocation can be emitted and (Batch) only then; the no-op emits a command."
+	r.NotDecided = "bash -n itself is not run; that the driver follows the bracket protocol is decided under C04 (R-C04-proto)."
 	r.Rule("R-C16-line", "every line template is lexically closed (Bash: quotes and substitutions; Batch: quotes)", 120)
 	r.Rule("R-C16-balance", "bracket protocol units are balanced with matching closers; other methods are neutral", 40)
 	r.Rule("R-C16-labels", "Batch: every goto/call reference has a definition template; definitions unique per construct", 12)
